@@ -83,4 +83,26 @@ theorem fd_read_is_evOk (t : Nat) (readyAt : Option Nat) (e : Bool) (c : Rt.Cost
       match (Rt.fdRead (some t) readyAt e c).1 with | .data => .miss | .eof => .eof | .timeout => .timeoutExc⟩ :=
   Rt.fd_evOk t readyAt e c d hc
 
+/-! ### signals handled by the parent while it waits: the EINTR-restarting wrappers of utils.py keep the timed-wait contract -/
+
+theorem wait_under_signals_contract (T : Nat) (ready : Option Nat) (h : Nat) (sigs : List Nat) :
+    (Rt.selII T ready h 0 sigs).2 ≤ T + h ∧
+    ((Rt.selII T ready h 0 sigs).1 = false → T ≤ (Rt.selII T ready h 0 sigs).2) ∧
+    ((Rt.selII T ready h 0 sigs).1 = true → ∃ r, ready = some r ∧ r ≤ (Rt.selII T ready h 0 sigs).2) := by
+  obtain ⟨a, b, c, -⟩ := Rt.selII_contract T ready h sigs 0 (Nat.zero_le _)
+  exact ⟨a, b, c⟩
+
+theorem wait_without_signals_is_timed_wait (T : Nat) (ready : Option Nat) (h : Nat) :
+    Rt.selII T ready h 0 [] = Rt.timedWait (some T) ready := Rt.selII_no_signals T ready h
+
+theorem fd_read_contract_under_signals (t : Nat) (readyAt : Option Nat) (h : Nat) (sigs : List Nat) (e : Bool) (c : Rt.Costs) (d : Nat) (hc : c.le d) :
+    (Rt.fdReadI t readyAt h sigs e c).2 ≤ t + h + d ∧ ((Rt.fdReadI t readyAt h sigs e c).1 = .timeout → t ≤ (Rt.fdReadI t readyAt h sigs e c).2) :=
+  Rt.fd_contract_under_signals t readyAt h sigs e c d hc
+
+/-! non-vacuity: timeout 100, a signal every 30 ticks (handler 2): the fourth wait ends exactly at the deadline; data at 70 is seen at 70 -/
+example : Rt.selII 100 none 2 0 [30, 30, 30, 30, 30] = (false, 100) := by decide
+example : Rt.selII 100 (some 70) 2 0 [30, 30, 30, 30, 30] = (true, 70) := by decide
+/-! a signal 1 tick before the deadline: the handler runs past it and the wrapper gives up without waiting again -/
+example : Rt.selII 100 none 5 0 [99] = (false, 104) := by decide
+
 end C05
